@@ -12,9 +12,37 @@ import b2fmech
 import b2fcommon as bc
 
 
+def robust_mode(ctx, binary, quick):
+    """Growth beyond the listed properties (DESIGN.md 11.12): robust-mode switching of the session, RobustMode.tla.  The design
+    configuration and its two named wrong variants are checked, then one trace per station of real sessions (clean and cut,
+    every pair of mode settings) is validated.  A rejection is reported as SPEC-DRIFT, not as a violation of C01."""
+    vlib.design_check(ctx, bc.SPECDIR, "RobustMode", "RobustMode_design.cfg")
+    for cfg, inv in (("RobustMode_norestore.cfg", "RobustInv"), ("RobustMode_offforanswers.cfg", "UnitInv")):
+        dev = vlib.tlc(ctx, bc.SPECDIR, "RobustMode", cfg)
+        if dev.violated != inv:
+            raise vlib.Undecided("%s no longer produces the %s counterexample" % (cfg, inv))
+    f = ctx.path("robust.ndjson")
+    p = vlib.run_harness(ctx, binary, ["b2f-robustmode", "--out", f, "--n", "150" if quick else "3000", "--workers", str(vlib.NCPU)])
+    if p.returncode != 0:
+        raise vlib.Undecided("b2f-robustmode harness failed: rc=%d %s" % (p.returncode, p.stderr[-3000:]))
+    st = json.loads(p.stdout.strip().splitlines()[-1])
+    acc, rejected, _ = vlib.validate_traces(ctx, bc.SPECDIR, "RobustModeTrace", "RobustModeTrace.cfg", f, st["traces"], name="tv-robust")
+    if rejected:
+        rows = vlib.read_ndjson(f)
+        for (t, l) in rejected[:20]:
+            row = rows[t - 1]
+            line = "robust-mode trace %d (scenario %s station %s mode %s cut=%s) rejected at event %d: %s" % (
+                t, row.get("scen"), row.get("s"), row.get("mode"), row.get("cut"), l, json.dumps(row["ev"][max(0, l - 3):l + 1]))
+            print("SPEC-DRIFT: " + line[:400])
+            ctx.drift.append(line)
+    st["accepted"] = acc
+    return st
+
+
 def run(ctx):
     binary = vlib.build_harness(ctx)
     quick = ctx.tier == "quick"
+    robust = robust_mode(ctx, binary, quick)
     # design: the mechanism model, all policy assignments x both role assignments, clean link
     vlib.design_check(ctx, bc.SPECDIR, "MCB2F", "B2F_clean.cfg")
     traces = ctx.path("traces.ndjson")
@@ -63,6 +91,7 @@ def run(ctx):
         "exhaustive": False,
         "runs": stats_all,
         "mechanism_traces_validated": mech,
+        "robust_mode_station_traces": robust,
     }, ["TLC", "wire lexer (harness/internal/b2f/lexer.go) written from docs/F6FBB-B2F", "bitwise CRC-16/XMODEM",
         "content identity = bytes.Equal(queued serialisation, delivered serialisation)",
         "in-memory duplex scheduler gives happens-before event order"])
